@@ -2,6 +2,7 @@
    "limit fires" step are proved; the waiting itself is the kernel's and is measured by the check.) *)
 From CV Require Import Base Token Env Timeout.
 From CVP Require Import Env_lemmas Timeout_proofs.
+From CVP Require Import C12_spin.
 Open Scope Z_scope.
 
 (* the wait is unbounded only if there is no timeout, no synthetic event and no armed timer *)
@@ -37,3 +38,17 @@ Proof. exact wh_next_none_after_cancel. Qed.
 
 Example C12_nonvacuous : eff_timeout (Some 400) false (Some 1100) 1000 = Some 100 /\ eff_timeout None false (Some 900) 1000 = Some 0.
 Proof. split; reflexivity. Qed.
+
+(* no spinning: the wait handed to the poller is zero only for a reason - the caller asked for zero, a synthetic event is pending,
+   or a timer is already due *)
+Theorem C12_zero_wait_only_for_a_cause : forall timeout syn next now, (forall x, timeout = Some x -> 0 <= x) ->
+  eff_timeout timeout syn next now = Some 0 -> syn = true \/ timeout = Some 0 \/ exists d, next = Some d /\ d <= now.
+Proof. exact eff_zero_only_for_cause. Qed.
+(* no oversleeping and no early return: the wait ends no later than the caller's timeout and no later than the earliest deadline,
+   and exactly at one of the two *)
+Theorem C12_wait_ends_exactly_at_timeout_or_deadline : forall timeout next now e, eff_timeout timeout false next now = Some e ->
+  (forall x, timeout = Some x -> e <= x) /\ (forall d, next = Some d -> now + e <= Z.max now d) /\
+  (timeout = Some e \/ exists d, next = Some d /\ now + e = Z.max now d).
+Proof. intros timeout next now e H. destruct (eff_never_late _ _ _ _ H) as [A B]. split; [exact A|split; [exact B|exact (eff_never_early _ _ _ _ H)]]. Qed.
+Print Assumptions C12_zero_wait_only_for_a_cause.
+Print Assumptions C12_wait_ends_exactly_at_timeout_or_deadline.
